@@ -44,6 +44,10 @@ CHECKS = {
    text="Bounded: relational run-time contract on the real pipeline - for every rotation offset of every generated kernel the LCD set keyed by instruction text and latency equals the unrotated one. The argument why it holds in general (C03 + C05) is in DESIGN.md, not mechanised.",
    note="Metamorphic two-call property: no single-call contract decides it.",
    tech="bounded relational run-time contract on the real pipeline"),
+ "C16": dict(cat="proof", ref="DESIGN.md section 4 C16",
+   text="The static partition of root instructions in check_for_loopcarried_dep is verified on the real code, executed symbolically up to the creation of the workers, for ALL kernel lengths >= 50 and ALL worker counts >= 1: one slice per worker, slices consecutive, in order, pairwise disjoint, inside the kernel and covering every root exactly once (nonlinear integer VCs); _extend_path is verified to search, for each instruction of its slice, the paths from it to its second copy; order-insensitivity of the post-processing is a lemma. Equality of the real multi-process search with the sequential one is sampled by a bounded unit (worker counts 1,2,3,5,16,80; kernels of 50-66 lines) and by a partition probe of the real function for klen 50-130 x 9 worker counts.",
+   note="A: Manager().list().extend atomic/lossless, workers terminate, int(a/b) = floor division below 2**53; real scheduling and byte-identical reports only sampled.",
+   tech=TECH + " (nonlinear integer arithmetic); bounded runs with real processes"),
 }
 NA = {
  "C17": "quantifies over file-system histories, crash points of cache writes and process races; no function contract decides it (needs fault enumeration / a file-system model)",
